@@ -24,6 +24,7 @@ RegOK(e) ==
    /\ \A j \in 1..Len(e.nb) : e.nb[j].i \in 1..15 /\ e.nb[j].param # Default[e.nb[j].i] /\ ~Same(e.nb[j], e.runners[e.nb[j].i])
    /\ \A i \in 1..15 : ResultOK(Tests[i], e.runners[i], TRUE)
    /\ e.readgroup = TRUE /\ e.mutated = FALSE
+   /\ e.stable = TRUE /\ e.reglen = 15                                          \* registry and full round unchanged after the reduced round ran
    /\ e.expand = -1                                                              \* B2bitArr(data) = BytesToBits(data) (first differing index, -1 = none)
 \* light: a large byte string through the linear-time tests only: byte-oriented runner = bit-oriented entry point at the
 \* default on BytesToBits(data); the library's expansion and file loader give exactly those bits
@@ -32,6 +33,9 @@ LightOK(e) ==
    /\ Len(e.pairs) = 9
    /\ \A j \in 1..Len(e.pairs) : Same(e.pairs[j].runner, e.pairs[j].def) /\ ResultOK(Tests[e.pairs[j].i], e.pairs[j].runner, TRUE)
 ResOK(e) == e.panic = "" /\ e.t \in {Tests[i] : i \in 1..15} /\ ResultOK(e.t, e.r, e.isrunner) /\ e.mutated = FALSE
+\* probe: a test started on an input at the upper end of its admissible range must not refuse it (panic); if it finished
+\* within the observation window its result is judged like any other
+ProbeOK(e) == e.panic = "" /\ (e.finished => ResultOK(e.t, e.r, FALSE))
 \* bytes: B2bit expands most-significant-bit first, B2Byte inverts it, B2bitArr concatenates (BitSeq!ByteBits / BytesToBits)
 BytesOK(e) == /\ Len(e.rows) = 256 /\ Len(e.back) = 256
               /\ \A b \in 0..255 : e.rows[b + 1] = ByteBits(b) /\ e.back[b + 1] = b
@@ -42,7 +46,7 @@ BytesOK(e) == /\ Len(e.rows) = 256 /\ Len(e.back) = 256
               /\ e.arr2 = BytesToBits(e.arrbytes)
 Init == l = 1
 Step == /\ l <= Len(Trace)
-        /\ LET e == Trace[l] IN CASE e.ev = "reg" -> RegOK(e) [] e.ev = "res" -> ResOK(e) [] e.ev = "bytes" -> BytesOK(e) [] e.ev = "light" -> LightOK(e) [] OTHER -> FALSE
+        /\ LET e == Trace[l] IN CASE e.ev = "reg" -> RegOK(e) [] e.ev = "res" -> ResOK(e) [] e.ev = "bytes" -> BytesOK(e) [] e.ev = "light" -> LightOK(e) [] e.ev = "probe" -> ProbeOK(e) [] OTHER -> FALSE
         /\ l' = l + 1
 Spec == Init /\ [][Step]_l
 Accepted == TLCGet("stats").diameter - 1 = Len(Trace)
